@@ -446,6 +446,20 @@ const COMPONENTS: [&str; 18] = [
     "mut int", "mut (int|float)", "mut string", "()->int", "()->int|float", "struct{a: [int]}", "struct{a: [int|string]}", "()",
 ];
 
+/// a `|` outside every bracket
+fn top_level_union(c: &str) -> bool {
+    let mut depth = 0i32;
+    for ch in c.chars() {
+        match ch {
+            '(' | '[' | '{' => depth += 1,
+            ')' | ']' | '}' => depth -= 1,
+            '|' if depth == 0 => return true,
+            _ => {}
+        }
+    }
+    false
+}
+
 /// a component inside one of nine kinds of type
 fn wrapped(c: &str, wrap: usize) -> String {
     match wrap {
@@ -454,8 +468,9 @@ fn wrapped(c: &str, wrap: usize) -> String {
         2 => format!("[{c}]"),
         3 => format!("({c}, int)"),
         4 => format!("(int, {c})"),
-        5 => format!("mut {}", if c.contains('|') || c.contains("->") { format!("({c})") } else { c.to_string() }),
-        6 => format!("()->{}", if c.contains("->") { format!("({c})") } else { c.to_string() }),
+        // (a function type is never parenthesised: `mut ()->int|float` is a cell holding a function)
+        5 => format!("mut {}", if top_level_union(c) && !c.contains("->") { format!("({c})") } else { c.to_string() }),
+        6 => format!("()->{c}"),
         7 => format!("({c})->int"),
         8 => format!("()->(bool, {c})"),
         _ => c.to_string(),
